@@ -151,7 +151,7 @@ def run(ctx: Ctx) -> None:
         for verb in (" I", "RQ", "RP", " W"):
             if verb not in d:
                 continue
-            for _ in range(60 if thorough else 3):
+            for _ in range(60 if thorough else 6):
                 pl = gen(d[verb], rng, mode=rng.choice(["rand", "rand", "lo", "hi", "rand-lo", "rand-hi"]))
                 if len(pl) % 2 or not 2 <= len(pl) <= 96:
                     continue
@@ -162,7 +162,12 @@ def run(ctx: Ctx) -> None:
                     continue
                 else:
                     a = f"{src} {dst} --:------"
-                lines.append(f"045 {verb} --- {a} {code} {len(pl) // 2:03d} {pl}")
+                seqn = rng.choice(["---", "---", "---", "034", "127"])     # some packets carry a sequence number
+                lines.append(f"045 {verb} {seqn} {a} {code} {len(pl) // 2:03d} {pl}")
+    for code, (n, _src, g) in ARRAYS.items():          # the single-element forms of the array codes, from a zone device to its controller
+        for i in range(4):
+            lines.append(f"045  I --- 04:123456 --:------ 01:145038 {code} {n:03d} {g(rng, i)}")
+            lines.append(f"045  I --- 22:123456 --:------ 01:145038 {code} {n:03d} {g(rng, i)}")
     first = {}
     for ln in lines:
         try:
@@ -195,6 +200,8 @@ def run(ctx: Ctx) -> None:
                               {"line": ln, "first": js, "again": str(again)}, "history")
                 break
         payload = ln.split()[-1]
+        if "seqx_num" in js and " --- " in ln[:12]:
+            ctx.violation(f"payload-carries-a-sequence-number-not-in-the-frame:{code}", f"{ln} decodes to {js[:200]}", {"line": ln, "payload": js[:400]}, "history")
         for d in as_list(p):
             if not isinstance(d, dict):
                 continue
@@ -210,6 +217,23 @@ def run(ctx: Ctx) -> None:
                 ctx.violation(f"ratio-out-of-range:{code}:{key}", f"{ln}: {key} = {v}", {"line": ln, "payload": js[:400]}, "input")
             if TEMP_KEYS.search(key) and not key.startswith("_") and isinstance(v, float) and not -273.15 <= v <= 327.67:
                 ctx.violation(f"temperature-out-of-range:{code}:{key}", f"{ln}: {key} = {v}", {"line": ln, "payload": js[:400]}, "input")
+    # shared mutable state: the same payload from another device, decoded before and after a packet that carries a sequence number
+    seen = set()
+    for ln in decodable:
+        f = ln.split()
+        if f[2] != "---":
+            continue
+        with_seqn = ln.replace(" --- ", " 057 ", 1)
+        try:
+            before = json.dumps(decode(ln), sort_keys=True, default=str)
+            decode(with_seqn)
+            after = json.dumps(decode(ln), sort_keys=True, default=str)
+        except Exception:  # noqa: BLE001, S112
+            continue
+        ctx.case(("seqn-probe", ln), True, "decode:before-and-after-a-numbered-packet")
+        if before != after:
+            ctx.violation(f"decode-depends-on-history:{f[6]}", f"{ln} decoded to {before[:200]}, then -- after the same payload was decoded with sequence number 057 -- to {after[:200]}",
+                          {"line": ln, "first": before, "again": after}, "history")
     ctx.extra["packets_decoded"] = len(decodable)
 
 
